@@ -83,6 +83,17 @@ structure LexErr where
   kind : LexErrKind
 deriving DecidableEq, Repr, Inhabited
 
+/-- What a `Tokenizer` yields when iterated to exhaustion: the ok tokens in order, the error (if any)
+that ended the stream, and the tokenizer's `(get_line, get_column)` once nothing is left — the position
+the parser reports for `<eof>` errors. After an error the tokenizer position is the error's position.
+This is the interface between the lexer model (`Lex`) and the parser model (`Parse`). -/
+structure LexOut where
+  toks : List Token
+  err : Option LexErr
+  endLine : Nat
+  endCol : Nat
+deriving DecidableEq, Repr, Inhabited
+
 mutual
 /-- `Argument` -/
 inductive Arg where
